@@ -176,6 +176,8 @@ pub struct Model {
     pub tam_peer: u16,
     pub bind_out: BTreeMap<u16, Vec<u8>>,
     pub app_alias: BTreeMap<u16, Vec<u8>>,
+    /// between the completed handshake and notify_closed()
+    pub transport_open: bool,
     /// `app_alias` as it was before the call being judged
     pub app_alias_before: BTreeMap<u16, Vec<u8>>,
     pub tam_local: u16,
@@ -245,6 +247,7 @@ impl Model {
             tam_peer: 0,
             bind_out: BTreeMap::new(),
             app_alias: BTreeMap::new(),
+            transport_open: false,
             app_alias_before: BTreeMap::new(),
             tam_local: 0,
             bind_in: BTreeMap::new(),
@@ -812,6 +815,7 @@ impl Model {
             Pkt::Connack { code, props, ver, .. } if !has_err && sent_self => {
                 if *code == 0 {
                     self.status = St::Cd;
+                    self.transport_open = true;
                     if *ver == Ver::V5 {
                         self.l_recv = pkt.prop_u16(P_RM);
                         self.tam_local = pkt.prop_u16(P_TAM).unwrap_or(0);
@@ -981,6 +985,7 @@ impl Model {
     }
 
     fn on_closed(&mut self, cx: &CallCtx, s: &mut Sink) {
+        self.transport_open = false;
         let evs = cx.events;
         // P5c: which ids must be announced
         let mut want: BTreeSet<u32> = BTreeSet::new();
@@ -1084,7 +1089,17 @@ impl Model {
     fn on_frame(&mut self, cx: &CallCtx, frame: &[u8], s: &mut Sink) {
         let evs = cx.events;
         let ver_before = self.ver;
-        let recv: Option<(&Pkt, bool)> = evs.iter().find_map(|e| if let Ev::Recv { pkt, extracted } = e { Some((pkt, *extracted)) } else { None });
+        let recv: Option<(&Pkt, bool)> = evs.iter().find_map(|e| if let Ev::Recv { pkt, extracted, .. } = e { Some((pkt, *extracted)) } else { None });
+        // AL9: the packet handed to the application is a well-formed packet of the size it reports (an alias-only PUBLISH is
+        // delivered with the bound topic filled in: that rewritten packet may be stored, relayed or logged by the application)
+        for e in evs.iter() {
+            if let Ev::Recv { pkt, enc: (size, len, framed), .. } = e {
+                s.hit("AL9-delivered-packet-is-well-formed");
+                if size != len || !framed {
+                    s.fail("C13", "AL9-delivered-packet-is-well-formed", format!("kind={:?}", pkt.kind()), format!("delivered {} reports size() = {} but serialises to {} bytes (Remaining Length frames it: {})", pkt.short(), size, len, framed));
+                }
+            }
+        }
         let has_err = evs.iter().any(|e| e.is_error());
         let decoded: Option<Pkt> = ver_before.and_then(|v| rc::decode(frame, v, self.idw).ok());
         // X3: delivered, answered as duplicate, or reported
@@ -1173,6 +1188,7 @@ impl Model {
                     }
                     if *code == 0 {
                         self.status = St::Cd;
+                        self.transport_open = true;
                         if *ver == Ver::V5 {
                             self.m_send = pkt.prop_u16(P_RM);
                             self.tam_peer = pkt.prop_u16(P_TAM).unwrap_or(0);
@@ -1205,7 +1221,9 @@ impl Model {
                     let alias = props.iter().find_map(|p| if let (P_TA, PVal::U16(a)) = (p.id, &p.val) { Some(*a) } else { None });
                     if *qos > 0 {
                         let i = id.unwrap();
-                        if self.v5() && status_at_frame == St::Cd {
+                        // (the limit belongs to the transport connection: it still holds for what arrives after the library has
+                        // sent its DISCONNECT and before the application reports the transport closed)
+                        if self.v5() && (status_at_frame == St::Cd || (status_at_frame == St::D && self.transport_open)) && !self.unsynced {
                             if let Some(l) = self.l_recv {
                                 s.hit("F3-inbound-excess-not-delivered");
                                 if !self.inn.contains(&i) && self.inn.len() >= l as usize {
